@@ -1,0 +1,117 @@
+//! Verification hooks. This module only exists when the crate is built with
+//! `--cfg qrlew_verif`; nothing in it is reachable from a normal build.
+//!
+//! Everything is a no-op until a conformance harness installs a sink, a
+//! scheduler or a capacity override.
+
+use std::{
+    cell::Cell,
+    collections::hash_map::DefaultHasher,
+    hash::{Hash, Hasher},
+    sync::{
+        atomic::{AtomicBool, AtomicU64, Ordering},
+        Arc, Mutex, MutexGuard,
+    },
+};
+
+thread_local! {
+    static CAPACITY: Cell<Option<usize>> = Cell::new(None);
+    static THREAD_TAG: Cell<u64> = Cell::new(0);
+}
+
+/// Override (for the current thread) the capacity given to newly built `Intervals`
+pub fn set_intervals_capacity(capacity: Option<usize>) {
+    CAPACITY.with(|c| c.set(capacity));
+}
+
+pub fn intervals_capacity() -> Option<usize> {
+    CAPACITY.with(|c| c.get())
+}
+
+/// A small integer naming the current thread in the recorded events
+pub fn set_thread_tag(tag: u64) {
+    THREAD_TAG.with(|t| t.set(tag));
+}
+
+pub fn thread_tag() -> u64 {
+    THREAD_TAG.with(|t| t.get())
+}
+
+static ENABLED: AtomicBool = AtomicBool::new(false);
+static VISITS: AtomicBool = AtomicBool::new(false);
+static SEQ: AtomicU64 = AtomicU64::new(0);
+static SINK: Mutex<Vec<String>> = Mutex::new(Vec::new());
+static COUNT_LOCK: Mutex<()> = Mutex::new(());
+static SCHEDULER: Mutex<Option<Arc<dyn Fn(u64, &str) + Send + Sync>>> = Mutex::new(None);
+
+/// Start recording events (`visits` also records every step of every visitor)
+pub fn install_sink(visits: bool) {
+    SINK.lock().unwrap_or_else(|e| e.into_inner()).clear();
+    SEQ.store(0, Ordering::SeqCst);
+    VISITS.store(visits, Ordering::SeqCst);
+    ENABLED.store(true, Ordering::SeqCst);
+}
+
+/// Stop recording and return the events
+pub fn take_events() -> Vec<String> {
+    ENABLED.store(false, Ordering::SeqCst);
+    VISITS.store(false, Ordering::SeqCst);
+    std::mem::take(&mut *SINK.lock().unwrap_or_else(|e| e.into_inner()))
+}
+
+fn emit(event: String) {
+    SINK.lock().unwrap_or_else(|e| e.into_inner()).push(event);
+}
+
+/// Install a callback invoked by a thread before it draws from the name counter
+pub fn set_scheduler(scheduler: Option<Arc<dyn Fn(u64, &str) + Send + Sync>>) {
+    *SCHEDULER.lock().unwrap_or_else(|e| e.into_inner()) = scheduler;
+}
+
+/// Held for the duration of one access to the global name counter, so that
+/// the order of recorded events is the order of the accesses.
+pub struct CounterScope(#[allow(dead_code)] Option<MutexGuard<'static, ()>>);
+
+/// Called on entry of `namer::count` / `namer::reset`; `peek` reads the value before the access
+pub fn counter_scope<F: FnOnce() -> Option<usize>>(op: &str, key: &str, peek: F) -> CounterScope {
+    if !ENABLED.load(Ordering::SeqCst) {
+        return CounterScope(None);
+    }
+    // The callback may block (it is how a harness imposes an interleaving): do not hold the lock
+    let scheduler = SCHEDULER
+        .lock()
+        .unwrap_or_else(|e| e.into_inner())
+        .clone();
+    if let Some(scheduler) = scheduler {
+        scheduler(thread_tag(), key);
+    }
+    let guard = COUNT_LOCK.lock().unwrap_or_else(|e| e.into_inner());
+    let seq = SEQ.fetch_add(1, Ordering::SeqCst);
+    let pre = peek().map(|v| v as i64).unwrap_or(-1);
+    emit(format!(
+        "{{\"ev\":\"{}\",\"t\":{},\"seq\":{},\"prefix\":{:?},\"pre\":{}}}",
+        op,
+        thread_tag(),
+        seq,
+        key,
+        pre
+    ));
+    CounterScope(Some(guard))
+}
+
+/// Called at each step of `visitor::Iterator::next`, before the transition
+pub fn visit_step<A: Hash>(acceptor: &A, state: &'static str, stack_len: usize) {
+    if !VISITS.load(Ordering::Relaxed) {
+        return;
+    }
+    let mut hasher = DefaultHasher::new();
+    acceptor.hash(&mut hasher);
+    emit(format!(
+        "{{\"ev\":\"step\",\"t\":{},\"ty\":{:?},\"node\":\"{:016x}\",\"st\":\"{}\",\"stack\":{}}}",
+        thread_tag(),
+        std::any::type_name::<A>(),
+        hasher.finish(),
+        state,
+        stack_len
+    ));
+}
